@@ -32,6 +32,7 @@ def _tail_into_cases(fn: ast.FunctionDef) -> ast.FunctionDef:
     self-contained sequence of statements that runs for that sub-command."""
     import copy
     fn = copy.deepcopy(fn)
+    _expand_conditional_statements(fn)
     for i, st in enumerate(fn.body):
         if isinstance(st, ast.Match):
             tail = fn.body[i + 1:]
@@ -46,6 +47,63 @@ def _tail_into_cases(fn: ast.FunctionDef) -> ast.FunctionDef:
                 del fn.body[i + 1:]  # unreachable now: every case (including the wildcard) leaves
             return fn
     return fn
+
+
+def _expand_conditional_statements(fn: ast.FunctionDef) -> None:
+    """`print('OK' if ok else 'Fail'); return 0 if ok else 1`  ->  `if ok: print('OK'); return 0  else: print('Fail'); return 1`:
+    a statement whose only variation is a conditional expression on a plain local becomes an if-statement, and neighbouring
+    if-statements on the same local (not reassigned in between) are merged, so verdict and exit status of one path sit on one
+    branch."""
+    import copy
+
+    def split(st):
+        for n in ast.walk(st):
+            if isinstance(n, ast.IfExp) and isinstance(n.test, ast.Name):
+                a, b = copy.deepcopy(st), copy.deepcopy(st)
+
+                class Pick(ast.NodeTransformer):
+                    def __init__(self, take_body):
+                        self.take_body, self.done = take_body, False
+
+                    def visit_IfExp(self, x):
+                        if not self.done and isinstance(x.test, ast.Name) and x.test.id == n.test.id and ast.dump(x) == ast.dump(n):
+                            self.done = True
+                            return x.body if self.take_body else x.orelse
+                        return self.generic_visit(x)
+
+                a, b = Pick(True).visit(a), Pick(False).visit(b)
+                return ast.copy_location(ast.If(test=ast.copy_location(ast.Name(id=n.test.id, ctx=ast.Load()), st), body=[a], orelse=[b]), st)
+        return None
+
+    def do(seq):
+        i = 0
+        while i < len(seq):
+            st = seq[i]
+            if isinstance(st, (ast.Expr, ast.Return, ast.Assign)):
+                new = split(st)
+                if new is not None:
+                    seq[i] = new
+                    continue
+            for fld in ("body", "orelse", "finalbody"):
+                sub = getattr(st, fld, None)
+                if isinstance(sub, list) and sub and isinstance(sub[0], ast.stmt):
+                    do(sub)
+            for c in getattr(st, "cases", []) or []:
+                do(c.body)
+            i += 1
+        # merge neighbours `if v: A else: B` `if v: C else: D`
+        i = 0
+        while i + 1 < len(seq):
+            a, b = seq[i], seq[i + 1]
+            if isinstance(a, ast.If) and isinstance(b, ast.If) and isinstance(a.test, ast.Name) and isinstance(b.test, ast.Name) \
+                    and a.test.id == b.test.id and a.orelse and b.orelse \
+                    and not any(isinstance(x, ast.Name) and x.id == a.test.id and isinstance(x.ctx, ast.Store) for x in ast.walk(a)):
+                a.body, a.orelse = a.body + b.body, a.orelse + b.orelse
+                del seq[i + 1]
+                continue
+            i += 1
+
+    do(fn.body)
 
 
 class CaseCtx:
